@@ -8,7 +8,7 @@ import numpy as np
 from common import F, qtok, qlist, Toks
 
 ID = 'C04'
-GEN_SECTIONS = ['GenUnits', 'GenLimits', 'FP_limits_ctors']
+GEN_SECTIONS = ['GenUnits', 'GenLimits', 'GenTrap', 'FP_limits_ctors', 'FP_trap']
 COQ_TARGETS = ['Props/C04.vo']
 EXTRACT_TARGETS = ['Extract/Ex_limits.vo']
 RUNNER = 'limits'
